@@ -69,7 +69,9 @@ impl TcpStream {
         Ok(None)
     }
     pub fn try_clone(&self) -> io::Result<TcpStream> {
-        kernel::sock_clone(&self.k, self.sock);
+        if !kernel::sock_clone(&self.k, self.sock) {
+            return Err(io::Error::new(io::ErrorKind::Other, "Too many open files (os error 24)"));
+        }
         Ok(TcpStream { k: self.k.clone(), sock: self.sock, peer: self.peer })
     }
     pub fn shutdown(&self, how: Shutdown) -> io::Result<()> {
